@@ -467,6 +467,49 @@ def text_parts(ctx, repo):
         ctx.ob("R6", key, ok, f"HELLO reply for spa name {name!r}: {why}", repo.method(cname, "handle").loc)
 
 
+class _Captured(Exception):
+    def __init__(self, value):
+        self.value = value
+
+
+def hello_payload_extraction(ctx, repo, rule="R6"):
+    """The HELLO decoder must hand exactly the bytes between <HELLO> and </HELLO> to its
+    parser - for ANY payload.  The wire is built with a symbolic payload; the value the
+    decoder first inspects (startswith/split/...) must be that payload, untouched."""
+    interp = Interp(repo, max_depth=8)
+    cname = "GeckoHelloProtocolHandler"
+    m = repo.mod("driver/protocol/hello.py")
+    op, cl = repo.try_fold(m.consts.get("HELLO_OPEN"), m), repo.try_fold(m.consts.get("HELLO_CLOSE"), m)
+    if not isinstance(op, bytes) or not isinstance(cl, bytes):
+        raise AnalysisError("HELLO_OPEN/HELLO_CLOSE constants not found")
+    wire = SymBytes.of(op) + SymBytes.blob("payload") + SymBytes.of(cl)
+
+    def attr_hook(ip, base, attr):
+        if isinstance(base, SymBytes) and any(isinstance(c, Blob) for c in base.cells) and attr in ("startswith", "split", "decode", "endswith", "partition", "find", "index"):
+            raise _Captured(base)
+        return NotImplemented
+
+    interp.attr_hook = attr_hook
+    rx = new_handler(repo, interp, cname, [b"1"])
+    hfi = repo.method(cname, "handle")
+    got = None
+    try:
+        interp.steps = 0
+        interp.call(hfi, rx, [wire, SENDER])
+    except _Captured as c:
+        got = c.value
+    except PyRaise as e:
+        ctx.ob(rule, "hello::payload-extraction", False, f"HELLO decoder raises {e.what} on a framed payload", hfi.loc)
+        return
+    except Undecided as e:
+        raise AnalysisError(f"HELLO payload extraction: {e}")
+    ok = got is not None and got.cells == [Blob("payload")]
+    ctx.ob(rule, "hello::payload-extraction", ok,
+           f"the HELLO decoder parses {got!r} instead of exactly the bytes between {op!r} and {cl!r}: payload bytes can be lost or framing bytes kept "
+           f"(e.g. strip() with a character set eats trailing name characters)", hfi.loc,
+           sample={"rule": rule, "wire": repr(wire), "parsed": repr(got)})
+
+
 def codec(ctx, repo):
     enc = repo.try_fold(ast.parse("GeckoConstants.MESSAGE_ENCODING", mode="eval").body)
     import codecs
@@ -559,6 +602,7 @@ def check(ctx):
     round_trips(ctx, repo)
     framing(ctx, repo)
     text_parts(ctx, repo)
+    hello_payload_extraction(ctx, repo)
     codec(ctx, repo)
     from ..packs import tables
     files_roundtrip_names(ctx, repo, tables(repo), rule="R6")
